@@ -175,6 +175,11 @@ impl PoolInner {
         // new handles to the list, as they would be leaked. Instead, we join
         // them immediately.
         if self.shutdown.load(Ordering::Acquire) {
+            // The shutdown may have signaled the processors before this processor's state
+            // existed, in which case nobody told our new workers to exit. Signal them
+            // ourselves, otherwise the joins below would wait forever.
+            state.signal_shutdown();
+
             for handle in new_handles {
                 #[cfg(folo_verif)]
                 crate::verif_hook::wait_for_exit(&handle);
